@@ -7,6 +7,7 @@ import (
 	"owverif.local/verif/checks/c01"
 	"owverif.local/verif/checks/c04"
 	"owverif.local/verif/checks/c06"
+	"owverif.local/verif/checks/c09"
 	"owverif.local/verif/checks/c10"
 	"owverif.local/verif/checks/c11"
 	"owverif.local/verif/checks/c12"
@@ -27,6 +28,7 @@ var registry = map[string]func() *vf.Check{
 	"C03": c01.SpecC03,
 	"C04": c04.Spec,
 	"C06": c06.Spec,
+	"C09": c09.Spec,
 	"C10": c10.Spec,
 	"C11": c11.Spec,
 	"C12": c12.Spec,
